@@ -1,4 +1,5 @@
 import CorsVerif.Driver.Codec
+import CorsVerif.Spec.Browser
 /-
   Line-protocol driver: one tab-separated operation per input line, one output line per
   input line.  Imports the model only (core Lean), so it links as a native executable.
@@ -124,6 +125,38 @@ def opServe (cfg orc dbg method hdrs pre bits : String) : String :=
     | .ok icfg => serveBoth (some icfg) d { method := m, hdrs := mapOf hs } pre bits
   | _, _, _, _, _ => "BAD-INPUT"
 
+/-- A recorded response `status|hdrs` (`-` = request not sent). -/
+def decResp (s : String) : Option (Option Resp) :=
+  if s == "-" then some none else
+  match s.splitOn "|" with
+  | [st, hs] => do
+    let m ← decMap hs
+    let status ← if st == "-" then some none else st.toNat?.map some
+    pure (some { hdrs := mapOf m, status := status, next := false })
+  | _ => none
+
+/-- C02 on the implementation's own responses: the Lean browser (`Browser.verdict`) reads the two
+responses the Go middleware gave, and the result is compared with `Browser.permits`. -/
+def opIntent (cfg orc dbg origin method names creds pna lines pre act : String) : String :=
+  match decConfig cfg, decBool dbg, decBytes origin, decBytes method, decList names, decBool creds, decBool pna,
+        decList lines, decResp pre, decResp act with
+  | some c, some d, some o, some m, some ns, some cr, some pn, some ls, some preR, some (some actR) =>
+    withOracle orc c.origins fun ext =>
+      match newInternalConfig ext c with
+      | .error _ => "cfgerr"
+      | .ok icfg =>
+        let i : Browser.Intent := { origin := o, method := m, headerNames := ns, creds := cr, pna := pn }
+        let need := Browser.needsPreflight i
+        if need != preR.isSome then s!"HARNESS-MISMATCH needsPreflight={need}" else
+        let implServer : Req → Resp := fun r =>
+          if (r.hdrs Facts.headers_ACRM).isSome then preR.getD { hdrs := HdrMap.empty, status := none, next := false } else actR
+        let vImpl := Browser.verdict implServer i ls
+        let vModel := Browser.verdict (fun r => Serve.serve icfg d r HdrMap.empty) i ls
+        let perm := Browser.permits (Serve.modelDec icfg) icfg i
+        if vImpl == perm && vModel == perm then s!"agree permits={perm} preflight={need}"
+        else s!"C02-VERDICT browser-on-implementation={vImpl} browser-on-model={vModel} permits={perm}"
+  | _, _, _, _, _, _, _, _, _, _ => "BAD-INPUT"
+
 /-- Error trees on the wire: `L<id>` or `J(<tree> <tree> …)`, whitespace-separated. -/
 partial def parseETree : List String → Option (ETree Nat × List String)
   | [] => none
@@ -178,6 +211,8 @@ def step (st : DState) (line : String) : DState × String :=
   | ["validate", cfg, orc] => (st, opValidate cfg orc)
   | ["serve", cfg, orc, dbg, m, hs, pre, bits] => (st, opServe cfg orc dbg m hs pre bits)
   | ["errors", tree, brk] => (st, opErrors tree brk)
+  | ["intent", cfg, orc, dbg, origin, method, names, creds, pna, lines, pre, act] =>
+    (st, opIntent cfg orc dbg origin method names creds pna lines pre act)
   | ["h.zero", id] => (st.put id Mw.zero [], "ok")
   | ["h.new", id, cfg, orc] =>
     match decConfig cfg, decOracle orc with
